@@ -6,4 +6,9 @@ TEXT = {
   "text": "Theorems in coq/Props/C16.v, for all hosts, all entry lists of any length and arbitrary strings: the scan's result is Compatible; found whenever a compatible entry exists (host names an architecture); no listed entry is Better than the result; two listings of the same entries give tied results; an exact Match beats any merely compatible entry; Better is transitive and asymmetric (including the odd semverCmp); normalize is idempotent and maps the documented aliases. The model (Model/C16_Platform.v) is a transliteration of normalize/Compatible/Match/Better/semverCmp/variantVer/Parse/String and DescriptorListSearch; each run compares it with the Go code on ~3000 (quick) / 60000 (thorough) generated searches, triples and platform strings, and evaluates property oracles (runnable, none-better, exact-preferred, permutation independence, parse/print fixpoint) on the implementation.",
   "note": "Trusted: Coq kernel + vm_compute; the Gallina transliteration (tied by the differential only on generated inputs); Base/StrX models of strconv.Atoi/strings.Split/path.Join; harness generators. os.features/features lists modelled but not generated; ',osver=' parse arguments exercised on the implementation only.",
  },
+ "C15": {
+  "technique": "Coq proof (accepted => grammar; frame lemmas) over hand recognisers + vm_compute differential against ref.New/CommonName on generated, mutated and arbitrary strings",
+  "text": "coq/Props/C15.v proves, for every input string, that whatever the parser model accepts has a known scheme, a tag and digest of the documented shape, and for registry references a non-empty lower-case repository, a registry and a tag or digest (the 'malformed names are rejected' half), and that SetTag/SetDigest/AddDigest change only tag/digest. The model (hand recognisers for refRE, ocidirRE, schemeRE, the localhost/Docker-Hub normalisation, CommonName) is compared on every run with ref.New on 5 500 (quick) / 220 000 (thorough) strings: accept/reject and all six components plus CommonName. The round-trip clause is decided per accepted string by the implementation-side oracle (print, re-parse, compare components) - that clause is `_partial`: not yet a Coq theorem.",
+  "note": "Trusted: Coq kernel; the recognisers as a reading of the regular expressions (checked differentially only); generators. F-C15a (ocifile:// accepted but printed as \"\") was reproduced by this check and repaired in /repo (fix: commit).",
+ },
 }
